@@ -16,8 +16,8 @@ Global Arguments Z.eqb : simpl never.
 Global Arguments Z.ltb : simpl never.
 Global Arguments Z.leb : simpl never.
 
-Definition byte := N.
-Definition bytes := list N.
+Notation byte := N (only parsing).
+Notation bytes := (list N) (only parsing).
 
 Definition blen (l : bytes) : N := N.of_nat (length l).
 
